@@ -248,6 +248,13 @@ impl TransportVisitor for TearVisitor {
 /// One execution: construct the driver while the device may update its configuration before any
 /// individual register read (at most MAX_UPDATES times).
 pub fn run_tear(kind: Kind, tkind: TKind) {
+    run_tear_as("C13", "torn-config-read", kind, tkind)
+}
+
+/// The same schedule exploration reported under another property whose text names the value
+/// (C14: block capacity equals the device's configuration; C20: the mount tag equals what the
+/// device reported).
+pub fn run_tear_as(prop: &'static str, vkind: &'static str, kind: Kind, tkind: TKind) {
     hal::reset();
     let offered = crate::drivers::F_VERSION_1 | if kind == Kind::Console { 1 } else { 0 } | if kind == Kind::NetRaw { 1 << 5 } else { 0 };
     let w = DWorld::new(kind, tkind, offered, config_for(kind, 0));
@@ -288,6 +295,6 @@ pub fn run_tear(kind: Kind, tkind: TKind) {
         tag("tear:no-update");
     }
     if !valid.contains(&got) {
-        report(Violation::new("C13", "torn-config-read", format!("{} on {}: driver reports {} which is not the value of any single configuration generation {:?}", kind.name(), tkind.name(), got, valid)));
+        report(Violation::new(prop, vkind, format!("{} on {}: driver reports {} which is not the value of any single configuration generation {:?}", kind.name(), tkind.name(), got, valid)));
     }
 }
